@@ -297,9 +297,8 @@ func (g *Gen) fill(v reflect.Value, depth int) {
 		}
 		s := reflect.MakeSlice(v.Type(), n, n)
 		if v.Type().Elem().Kind() == reflect.Interface {
-			// NBT lists are homogeneous, and interface elements of byte/int/long kind have no
-			// documented tag choice: fill with one dynamic kind that has no typed-array form.
-			kind := r.Intn(4)
+			// NBT lists are homogeneous: one dynamic kind per slice (an interface slice is a list whatever its elements are)
+			kind := r.Intn(7)
 			for i := 0; i < n; i++ {
 				s.Index(i).Set(reflect.ValueOf(g.homogElem(kind)))
 			}
@@ -407,10 +406,11 @@ func (g *Gen) dynValue(depth int) reflect.Value {
 		g.feat("any.map")
 		return reflect.ValueOf(m)
 	default:
-		// homogeneous []any of a kind that has no typed-array form
+		// homogeneous []any (an interface slice is not a byte/int/long slice: by the documented mapping it is a
+		// list, also when its elements happen to be bytes, ints or longs)
 		n := r.Range(0, 3)
 		s := make([]any, n)
-		kind := r.Intn(4)
+		kind := r.Intn(7)
 		for i := range s {
 			s[i] = g.homogElem(kind)
 		}
@@ -428,6 +428,12 @@ func (g *Gen) homogElem(kind int) any {
 		return int16(r.Int64B())
 	case 2:
 		return math.Float64frombits(r.Float64Bits())
+	case 4:
+		return int8(r.Int64B())
+	case 5:
+		return int32(r.Int64B())
+	case 6:
+		return r.Int64B()
 	}
 	m := map[string]any{}
 	if r.Bool() {
